@@ -127,6 +127,8 @@ func runC09(c *Ctx) {
 	}
 	ruleSASLDecode(c)
 
+	ruleNoPartialLine(c)
+
 	R.Rule("R-cauth-flow", "E4 value flow", "Client.Auth encodes the mechanism's octets and decodes challenges with base64.StdEncoding; Next receives the decoded challenge; the first command is AUTH <mech> [<initial>]", 4)
 	if f := c.A.Func("(*Client).Auth"); f != nil {
 		allInstrs(f, func(in ssa.Instruction) {
